@@ -13,6 +13,7 @@ from . import C12
 from .C06 import WINDOW_HI
 
 LEVEL = "exploration"
+BRANCH_TARGETS = ['pyModeS.streamer.decode:Decode.process_raw', 'pyModeS.streamer.decode:Decode.run']
 TECHNIQUE = 'runtime monitoring: simulated-world oracle (true trajectories) + state invariants checked after every process_raw call; differential lower-case replay; exactly-once monitor on Decode.run()'
 LEVEL_TEXT = 'Exploration over thousands of short generated histories with directed scenarios (outages, evictions, NL/equator/antimeridian crossings, surface<->airborne).'
 LEVEL_RULE = (
@@ -247,7 +248,21 @@ def play(ctx, hist, lower=False, judge=True):
     """feed the history; returns (final table, ok)"""
     Decode = get_decode()
     rng = ctx.rng
-    d = Decode(latlon=hist["rx"]) if hist["rx"] else Decode()
+    dump = None
+    if hist.get("dumpto"):
+        import tempfile
+        dump = tempfile.mkdtemp(prefix="pmv-dump-")
+    d = Decode(latlon=hist["rx"], dumpto=dump) if hist["rx"] else Decode(dumpto=dump)
+    try:
+        return _play(ctx, hist, d, lower, judge)
+    finally:
+        if dump:
+            import shutil
+            shutil.rmtree(dump, ignore_errors=True)
+
+
+def _play(ctx, hist, d, lower, judge):
+    rng = ctx.rng
     ev = hist["events"]
     truth = {}
     last_any = {}    # addr -> time of last message that counted
@@ -399,6 +414,7 @@ def m_history(ctx, case):
     hist = gen_history(hrng, case.get("scen"), case.get("window", False))
     if case.get("batch"):
         hist["batch"] = case["batch"]
+    hist["dumpto"] = (case["hseed"] % 10 == 3)   # one history in ten also writes the CSV dump (robustness of that path)
     ev = hist["events"]
     gaps = [b[0] - a[0] for a, b in zip(ev, ev[1:])]
     for g in gaps:
